@@ -13,6 +13,17 @@ package cli
 //@ pure rec func helpFrom(args []string, i int) int =
 //@     (i < 0 || i >= len(args)) ? -1 : (args[i] == "--" ? -1 : (isHelp(args[i]) ? i : helpFrom(args, i+1)))
 
+// two facts about helpFrom, proved by induction and used by Cmd.parse for the descent without validation
+//@ lemma helpSkip(args []string, j int)
+//@   requires 0 <= j && j <= len(args) && (forall m int :: 0 <= m && m < j ==> args[m] != "--" && !isHelp(args[m]))
+//@   ensures helpFrom(args, 0) == helpFrom(args, j)
+//@   induct j
+//@ lemma helpShift(args []string, j int, i int, n int)
+//@   requires 0 <= j && 0 <= i && j + i <= len(args) && n == len(args) - j - i
+//@   ensures helpFrom(args[j:], i) == (helpFrom(args, i+j) < 0 ? -1 : helpFrom(args, i+j) - j)
+//@   induct n
+//@   trigger helpFrom(args[j:], i)
+
 //@ func (*Cmd).helpIndex
 //@   ensures def: result == helpFrom(args, 0)
 //@   ensures found: result >= 0 ==> result < len(args) && isHelp(args[result]) &&
@@ -56,6 +67,7 @@ package cli
 // --- error policy (C07, C14) -----------------------------------------------------------------------------------------
 // flag.ContinueOnError = 0, flag.ExitOnError = 1, flag.PanicOnError = 2
 //@ func (*Cmd).onError
+//@   logged
 //@   requires recv: c != nil
 //@   requires hook: exiter != nil
 //@   let sentinel = err == errHelpRequested || err == errVersionRequested
@@ -134,7 +146,10 @@ package cli
 //@     (forall i int :: 0 <= i && i < len(SUBS[c]) ==> SUBS[c][i] != nil)
 //@ pure func allCmdWF(OPTS array[*Cmd][]*container.Container, ARGS array[*Cmd][]*container.Container, SUBS array[*Cmd][]*Cmd, OI array[*Cmd]map[string]*container.Container, AI array[*Cmd]map[string]*container.Container) bool =
 //@     forall q *Cmd :: {OPTS[q]} {ARGS[q]} {SUBS[q]} {OI[q]} {AI[q]} q != nil ==> cmdWF(q, OPTS, ARGS, SUBS, OI, AI)
+// noHelpNames: no command is called -h or --help (assumed of every declaration, A-names)
+//@ pure func noHelpNames(AL array[*Cmd][]string) bool = forall q *Cmd, j int :: {AL[q][j]} 0 <= j && j < len(AL[q]) ==> !isHelp(AL[q][j])
 //@ func callback:Cmd.init(cmd)
+//@   ensures names: noHelpNames(fieldHeap(cmd.aliases))
 //@   ensures wf: allCmdWF(fieldHeap(cmd.options), fieldHeap(cmd.args), fieldHeap(cmd.commands), fieldHeap(cmd.optionsIdx), fieldHeap(cmd.argsIdx))
 
 // argNames: "ARG1 ARG2 ... " in declaration order
@@ -143,6 +158,8 @@ package cli
 
 //@ func (*Cmd).doInit
 //@   requires recv: c != nil
+//@   requires names: noHelpNames(fieldHeap(c.aliases))
+//@   ensures names: noHelpNames(fieldHeap(c.aliases))
 //@   requires wf: allCmdWF(fieldHeap(c.options), fieldHeap(c.args), fieldHeap(c.commands), fieldHeap(c.optionsIdx), fieldHeap(c.argsIdx))
 //@   logged
 //@   ensures wf: allCmdWF(fieldHeap(c.options), fieldHeap(c.args), fieldHeap(c.commands), fieldHeap(c.optionsIdx), fieldHeap(c.argsIdx))
@@ -182,3 +199,51 @@ package cli
 //@   loop 3 invariant listed: forall i int :: {commands[i]} 0 <= i && i < len(commands) ==> commands[i] != nil
 //@   loop 3 invariant wf: allCmdWF(fieldHeap(c.options), fieldHeap(c.args), fieldHeap(c.commands), fieldHeap(c.optionsIdx), fieldHeap(c.argsIdx))
 //@   loop 4 invariant no-flow: noFlow(old(trace), trace)
+
+// firstSub: the first declared subcommand having tok among its aliases (nil when there is none)
+//@ pure rec func firstSubFrom(c *Cmd, tok string, i int, SUBS array[*Cmd][]*Cmd, AL array[*Cmd][]string) *Cmd =
+//@     (i < 0 || i >= len(SUBS[c])) ? nil : (aliasOf(SUBS[c][i], tok, AL) ? SUBS[c][i] : firstSubFrom(c, tok, i+1, SUBS, AL))
+//@ pure func noRun(t0 trace, t trace) bool = len(t) >= len(t0) && (forall i int :: {t[i]} len(t0) <= i && i < len(t) ==> !isMark(t[i], "Run"))
+
+// --- Cmd.parse (C04, C05, C07, C14): one level; the recursive call is covered by this same contract -----------------------
+//@ func (*Cmd).parse
+//@   requires recv: c != nil && c.fsm != nil && entry != nil
+//@   requires wf: allCmdWF(fieldHeap(c.options), fieldHeap(c.args), fieldHeap(c.commands), fieldHeap(c.optionsIdx), fieldHeap(c.argsIdx))
+//@   requires names: noHelpNames(fieldHeap(c.aliases))
+//@   requires hook: exiter != nil
+//@   requires steps: stepsWF(fieldHeap(entry.Do), fieldHeap(entry.Error), fieldHeap(entry.Exiter))
+//@   requires flows: helpFrom(args, 0) < 0 ==> inFlow != nil && outFlow != nil
+//@   assumepre (*State).Parse/graph, (*State).Parse/a-cb-disjoint
+//@   uselemma helpSkip, helpShift
+//@   maypanic
+//@   mayexit
+//@   let h = helpFrom(args, 0)
+//@   let k = splitFrom(c, args, 0, fieldHeap(c.commands), fieldHeap(c.aliases))
+//@   let T0 = trace
+//@   let fsm0 = c.fsm
+//@   let p0 = len(trace)
+//@   ensures help-runs-nothing: h >= 0 ==> result == nil && noFlow(old(trace), trace)
+//@   ensures help-here-first: h >= 0 && h < k ==> trace[p0] == evMark("printHelp", c, true)
+//@   ensures validated-first: h < 0 ==> len(trace) > p0 && trace[p0] == evMark("Parse", fsm0)
+//@   ensures rejected-runs-nothing: h < 0 && !callOK("Parse", p0) ==> result != nil && noRun(old(trace), trace) && isMark(trace[len(trace)-1], "onError")
+//@   ensures accepted-action: h < 0 && callOK("Parse", p0) && k == len(args) && old(c.Action) != nil ==> result == nil &&
+//@       p0 < callEnd("Parse", p0) && callEnd("Parse", p0) < len(trace) && trace[callEnd("Parse", p0)] == evMark("Run", entry)
+//@   ensures accepted-nothing-before: h < 0 && callOK("Parse", p0) && k == len(args) && old(c.Action) != nil ==>
+//@       (forall i int :: {trace[i]} p0 <= i && i < callEnd("Parse", p0) ==> !isMark(trace[i], "Run"))
+//@   ensures accepted-run-is-last: h < 0 && callOK("Parse", p0) && k == len(args) && old(c.Action) != nil ==>
+//@       callEnd("Run", callEnd("Parse", p0)) == len(trace)
+//@   ensures wiring: h < 0 && callOK("Parse", p0) && k == len(args) && old(c.Action) != nil ==>
+//@       inFlow.Success != nil && inFlow.Success.Do == old(c.Before) && inFlow.Success.Error == outFlow && inFlow.Success.Exiter == exiter &&
+//@       inFlow.Success.Success != nil && inFlow.Success.Success.Do == old(c.Action) && inFlow.Success.Success.Exiter == exiter &&
+//@       inFlow.Success.Success.Success == inFlow.Success.Success.Error && inFlow.Success.Success.Success != nil &&
+//@       inFlow.Success.Success.Success.Do == old(c.After) && inFlow.Success.Success.Success.Success == outFlow &&
+//@       inFlow.Success.Success.Success.Error == outFlow && inFlow.Success.Success.Success.Exiter == exiter
+//@   ensures descends-into-first-match: h < 0 && callOK("Parse", p0) && k < len(args) ==>
+//@       p0 < callEnd("Parse", p0) && callEnd("Parse", p0) < len(trace) &&
+//@       trace[callEnd("Parse", p0)] == evMark("doInit", firstSubFrom(c, args[k], 0, old(fieldHeap(c.commands)), old(fieldHeap(c.aliases))))
+//@   ensures no-illegal-input-tail: h < 0 && callOK("Parse", p0) && k < len(args) ==> !isMark(trace[len(trace)-1], "onError") || len(trace) > callEnd("Parse", p0) + 1
+//@   ensures no-action-no-run: h < 0 && callOK("Parse", p0) && k == len(args) && old(c.Action) == nil ==> result == nil && noRun(old(trace), trace)
+//@   loop 1 invariant scan: true
+//@   loop 2 invariant tried: forall i int :: 0 <= i && i < $k ==> !aliasOf(c.commands[i], arg, fieldHeap(c.aliases))
+//@   loop 2 invariant first: firstSubFrom(c, arg, $k, fieldHeap(c.commands), fieldHeap(c.aliases)) ==
+//@       firstSubFrom(c, arg, 0, old(fieldHeap(c.commands)), old(fieldHeap(c.aliases))) && arg == args0[k]
